@@ -227,7 +227,12 @@ def _block_slices(ctx):
     return n
 
 
-@analysis("chp", ["C06.a", "C06.b", "C06.c", "C06.h", "C06.i", "C06.k"])
+rule("C06.m", "an aggregated implication row (+1 on a slice of k boolean variables, -c on one boolean variable, >= 0: 'if y then all of the "
+              "slice') has c <= k for every pass of the loop that builds it - checked at the first and the last pass, where slices are cut "
+              "by the horizon", floor=1)
+
+
+@analysis("chp", ["C06.a", "C06.b", "C06.c", "C06.h", "C06.i", "C06.k", "C06.m"])
 def run(ctx):
     _ramp_in_progress(ctx)
     _first_step_rows(ctx)
@@ -389,3 +394,88 @@ def run(ctx):
                "without shutdown variables the row has %s, with shutdown variables %s (ignoring the shutdown term): the two "
                "definitions of a start disagree" % (sorted(a), sorted(shared_b)), node=st,
                ok_detail="on[t+1] - on[t] - start[t+1] in both")
+
+    # ================================================================= C06.m aggregated implication rows
+    from ..linforms import LinEval, add as ladd, const_of
+    n_m = 0
+    for fn in sorted(p.all_functions(), key=lambda f: f.qualname):
+        if fn.cls is None or not p.is_subclass(fn.cls, "Asset") or fn.parent is not None:
+            continue
+        for lp in [s0 for s0 in au.walk_stmts(fn.body) if isinstance(s0, ast.For) and isinstance(s0.target, ast.Name)
+                   and isinstance(s0.iter, ast.Call) and au.method_name(s0.iter) == "range" and s0.iter.args]:
+            t = lp.target.id
+            ones, negs = [], []
+            for st in lp.body:
+                if not (isinstance(st, ast.Assign) and len(st.targets) == 1 and isinstance(st.targets[0], ast.Subscript)
+                        and isinstance(st.targets[0].slice, ast.Tuple) and len(st.targets[0].slice.elts) == 2):
+                    continue
+                tg = st.targets[0]
+                r, col = tg.slice.elts
+                if isinstance(col, ast.Slice) and col.lower is not None and col.upper is not None and au.const_num(st.value) == 1:
+                    ones.append((au.U(tg.value), au.U(r), col, st))
+                elif not isinstance(col, ast.Slice) and isinstance(st.value, ast.UnaryOp) and isinstance(st.value.op, ast.USub):
+                    negs.append((au.U(tg.value), au.U(r), st.value.operand, st))
+            for m1, r1, col, st1 in ones:
+                for m2, r2, k, st2 in negs:
+                    if m1 != m2 or r1 != r2:
+                        continue
+                    n_m += 1
+                    # the loop bounds
+                    ra = lp.iter.args
+                    first = ra[0] if len(ra) >= 2 else ast.Constant(value=0)
+                    stop = ra[1] if len(ra) >= 2 else ra[0]
+                    atom = lambda e: (au.U(e) if isinstance(e, (ast.Attribute, ast.Subscript)) or (isinstance(e, ast.Name) and e.id != t) else None)
+                    # facts on k from the guards around the loop:  k > c  /  k >= c
+                    kmin = None
+                    for a0 in p.ancestors(lp):
+                        if isinstance(a0, ast.If):
+                            for cpr in au.walk_local(a0.test):
+                                if isinstance(cpr, ast.Compare) and len(cpr.ops) == 1 and au.U(cpr.left) == au.U(k) and au.const_num(cpr.comparators[0]) is not None:
+                                    c0 = au.const_num(cpr.comparators[0])
+                                    if isinstance(cpr.ops[0], ast.Gt):
+                                        kmin = max(kmin or 0, c0 + 1)
+                                    elif isinstance(cpr.ops[0], ast.GtE):
+                                        kmin = max(kmin or 0, c0)
+                    verdicts = []
+                    for label, tval in (("first", LinEval(atom).ev(first)), ("last", ladd(LinEval(atom).ev(stop), {"1": 1}, -1))):
+                        if tval is None:
+                            verdicts.append((label, None, ""))
+                            continue
+                        le = LinEval(atom, {t: tval})
+                        ups = list(col.upper.args) if isinstance(col.upper, ast.Call) and au.method_name(col.upper) == "min" else [col.upper]
+                        # an offset added around min():  a + min(x, y)
+                        if isinstance(col.upper, ast.BinOp) and isinstance(col.upper.op, ast.Add):
+                            for side, other in ((col.upper.left, col.upper.right), (col.upper.right, col.upper.left)):
+                                if isinstance(side, ast.Call) and au.method_name(side) == "min":
+                                    ups = [ast.BinOp(left=other, op=ast.Add(), right=a1) for a1 in side.args]
+                        lo = le.ev(col.lower)
+                        kf = le.ev(k)
+                        worst = None
+                        for u0 in ups:
+                            w = ladd(le.ev(u0), lo, -1)            # width of the slice through this arm of min()
+                            d = ladd(w, kf, -1) if (w is not None and kf is not None) else None      # width - k
+                            if d is None:
+                                worst = "?"
+                                continue
+                            cst = const_of(d)
+                            if cst is not None:
+                                if cst < 0:
+                                    worst = "neg"
+                                continue
+                            # width - k = const - k with k >= kmin
+                            rest = {a1: v for a1, v in d.items() if a1 != "1"}
+                            if set(rest) == {au.U(k)} and rest[au.U(k)] == -1 and kmin is not None and d.get("1", 0) - kmin < 0:
+                                worst = "neg"
+                            elif worst != "neg":
+                                worst = "?"
+                        verdicts.append((label, worst, au.short(col.upper, 40)))
+                    bad = [v for v in verdicts if v[1] == "neg"]
+                    unk = [v for v in verdicts if v[1] == "?" or v[1] is None and v[2] == ""]
+                    ok = False if bad else (None if unk else True)
+                    ctx.ob("C06.m", fn, "%s[%s, %s] = 1 against -%s" % (m1, r1, au.short(col, 40), au.U(k)), ok,
+                           "in the %s pass of the loop the slice %s:%s is shorter than %s (the horizon cuts it), but the coefficient on the single "
+                           "variable stays %s: the row can only hold with that variable at 0 - a start in the last steps of the horizon, which "
+                           "the per-step rows allow (the unit simply stays on to the end), becomes infeasible" % (
+                               bad[0][0] if bad else "", au.short(col.lower, 30), au.short(col.upper, 40), au.U(k), au.U(k)) if bad else
+                           "the width of the slice could not be compared with the coefficient", node=st2)
+    ctx.ob("C06.m", "package", "aggregated implication rows", True, ok_detail="%d row pattern(s) found" % n_m)
